@@ -191,6 +191,13 @@ def run(ctx):
         for n in nodes:
             g = head_facts(fi, fl, n)
             ok_must = sem.holds(g, must)
+            if not ok_must:
+                # the transition may follow its guard at a distance (guard as an early return, stores in between): every
+                # syntactic path to the transition must have taken the decision under the required tests
+                pcs = sem.path_conditions(fi.node, n, kill_rebound=False)
+                if pcs and all(sem.holds(pc, must) for pc in pcs):
+                    ok_must = True
+                    g = set().union(*pcs) if pcs else g
             extra = sorted(x for x in g if any(b in x for b in must_not))
             ok = ok_must and not extra
             ctx.ob("C18.timers", fi.short(), what, ok,
